@@ -12,7 +12,7 @@
     the ARC cache is also outside these theorems.  LoadMast during the concurrent phase is covered
     by the second theorem below (at the level of results, through the abstract world). *)
 From Coq Require Import List NArith ZArith Bool.
-From Mast Require Import Prim Key Tree Codec Store Diff World Hist Conc Reload WorldInv ConcHist.
+From Mast Require Import Prim Key Tree Codec Store Diff World Hist Conc Reload WorldInv ConcHist Cache CacheHist ConcCache.
 Import ListNotations.
 
 (** a call that uses only what its owner owns (trees, cursors, captured roots) computes the same
@@ -82,7 +82,26 @@ Proof.
   vm_compute. split; reflexivity.
 Qed.
 
+(** ... and over one node cache too: all owners' operations go through ONE world-wide cache that starts
+    empty, is filled with the top node on every LoadMast and MakeRoot (what loadPersisted and the commit
+    step of flush do) and evicted by ANY schedule [ev].  In every interleaving and under every eviction
+    schedule each owner observes exactly what its own history observes run alone with no cache at all. *)
+Theorem C11_alone_over_a_shared_cache : forall (owner_ids : nat -> ConcHist.ids) (a : nat),
+  (forall j i, j <> a -> owner_ids j i = true -> owner_ids a i = false) ->
+  forall l ev, all_own owner_ids l = true ->
+  conds empty_world ([], []) (map snd l) -> conds empty_world ([], []) (ConcHist.mine a l) ->
+  observed_d a ev 0 (fun _ _ _ => cempty) empty_world l = map (fun y => pobs (fst y)) (run empty_world (ConcHist.mine a l)).
+Proof. exact alone_over_a_shared_cache. Qed.
+
+(** non-vacuity: the two owners above through one cache from which every second step evicts everything *)
+Example C11_example_shared_cache :
+  observed_d 1 (fun i _ => Nat.even i) 0 (fun _ _ _ => cempty) empty_world inter2
+  = map (fun y => pobs (fst y)) (run empty_world (ConcHist.mine 1 inter2)) /\
+  length (observed_d 0 (fun i _ => Nat.even i) 0 (fun _ _ _ => cempty) empty_world inter2) = 9%nat.
+Proof. vm_compute. split; reflexivity. Qed.
+
 Print Assumptions C11_step_is_local.
 Print Assumptions C11_step_frame.
 Print Assumptions C11_alone_in_any_interleaving.
 Print Assumptions C11_alone_with_persist_and_reload.
+Print Assumptions C11_alone_over_a_shared_cache.
